@@ -151,11 +151,12 @@ def search(ctx, exe):
             sched = [0] * 3 + [1] * k + [2] * k + [0] * m + [1] * 60 + [2] * 60 + [0, 1, 2] * 200
             sweep.append(core.fmt_case([4000], [[(LOCK, 0), (UNLOCK, 0)]] * 3, sched))
     cases = sweep + cases
-    impl = core.run_sharded([exe], cases)
+    # RT_CATCHALL: every byte of the mutex object is a scheduling point (fields the model does not know included)
+    impl = core.run_sharded(["env", "RT_CATCHALL=1", exe], cases)
     for c, line in zip(cases, impl):
         why = core.safe_monitor(monitor, c, core.parse_trace(line) if line is not None else None, line)
         if why:
-            core.report_violation(ctx, "mutex", c, why, line)
+            core.report_violation(ctx, "mutex+catchall", c, why, line)
             if len(ctx.violations) >= 3:
                 break
 
@@ -166,6 +167,11 @@ def replay(ctx, payload):
     if not exe or not c:
         print("nothing to replay (no concrete case in this file)")
         return 2
+    if str(payload.get("harness", "")).endswith("+catchall"):
+        impl = core.run_sharded(["env", "RT_CATCHALL=1", exe], [c])[0]
+        why = core.safe_monitor(monitor, c, core.parse_trace(impl) if impl is not None else None, impl)
+        print("case:  %s\nimpl (every byte of the object a scheduling point):  %s\nmonitor: %s" % (c, impl, why or "ok"))
+        return 1 if why else 0
     impl = core.run_sharded([exe], [c])[0]
     mod = core.model_run("mutex", [c])[0]
     why = monitor(c, core.parse_trace(impl), impl)
